@@ -244,7 +244,7 @@ static const EVP_MD *md_for(EVP_PKEY *signer)
 /* ------------------------------------------------------------- certificates */
 enum { LV_ROOT = 0, LV_LEAF = 5 };       /* levels 1..4 = intermediates; LV_LEAF with 'parent' = issuing level */
 /* root-level certificate variants */
-enum { R_MAIN = 0, R_SECOND, R_PL0, R_PL1, R_N };
+enum { R_MAIN = 0, R_SECOND, R_PL0, R_PL1, R_CRIT, R_N };   /* R_CRIT: the main root re-issued with an unknown CRITICAL extension: the parser rejects it */
 static const char *root_name[R_N] = { "R", "R2(same DN, other key)", "R(pathlen0)", "R(pathlen1)" };
 
 typedef struct {
@@ -379,6 +379,7 @@ typedef struct {
     X509 *sig_donor_anchor, *sig_donor_parent, *sig_donor_sibling;
     EVP_PKEY *wrong_key, *weak_key;
     int old_no_ku;                       /* CA without keyUsage whose notBefore lies in 1995 (before X.509v3) */
+    int root_crit_unk;                   /* a root that carries an unknown critical extension (as its LAST extension) */
 } cspec_t;
 
 static X509 *build_cert(const cspec_t *c, unsigned char **der_out, int *derlen_out)
@@ -478,6 +479,10 @@ static X509 *build_cert(const cspec_t *c, unsigned char **der_out, int *derlen_o
             {
                 add_aki(x, c->issuer_key, kind == K_AKI_BAD);
             }
+        }
+        if (c->root_crit_unk)
+        {
+            add_unknown_ext(x, 1);
         }
         if (kind == K_GOOD_UNKEXT)
         {
@@ -636,6 +641,7 @@ static void build_slice(int sl)
         c.is_ca = c.is_root = 1;
         c.nokeyid = nokid;
         c.pathlen = r == R_PL0 ? 0 : r == R_PL1 ? 1 : -1;
+        c.root_crit_unk = r == R_CRIT;
         x = build_cert(&c, &der, &derlen);
         u_root[sl][r] = add_u(sl, LV_ROOT, -1, r, x, der, derlen);
     }
@@ -738,7 +744,16 @@ static psX509Cert_t *u_parsed(int id, int which)
     if (!u->pc_done[which])
     {
         u->pc_done[which] = 1;
-        u->pc_rc[which] = psX509ParseCert(NULL, u->der, (uint32) u->derlen, &u->pc[which], 0);
+        u->pc_rc[which] = psX509ParseCert(NULL, u->der, (uint32) u->derlen, &u->pc[which], which == 1 ? CERT_ALLOW_BUNDLE_PARTIAL_PARSE : 0);
+        if (which == 1 && u->pc_rc[which] < 0 && u->pc[which] && u->pc[which]->parseStatus != PS_X509_PARSE_SUCCESS && u->pc[which]->parseStatus != PS_X509_PARSE_FAIL)
+        {
+            /* trust anchors are loaded with CERT_ALLOW_BUNDLE_PARTIAL_PARSE (matrixSslAddTrustAnchors): an entry the parser
+               REJECTED stays in the CA list, partly filled in, with its parseStatus: the validator must not use it */
+            DUMPF("    MatrixSSL parser rejects anchor #%d (parseStatus %d): kept in the CA list as the key loader does\n", id, (int) u->pc[which]->parseStatus);
+            u->pc_flags[which] = u->pc[which]->authFailFlags;
+            u->pc_sig[which] = h_malloc(1);
+        }
+        else
         if (u->pc_rc[which] < 0)
         {
             if (u->pc[which])
